@@ -35,6 +35,11 @@ def getattr_value(E, path, o, name, frame):
         if name == "__dict__":
             raise Unsupported("__dict__ access")
         return MISSING
+    if isinstance(o, Sym) and E.U.ctor_name(z3.simplify(o.term)) is None \
+            and z3.simplify(o.term).get_id() not in path.tags:
+        lazy = lazy_node_attr(E, path, o, name)
+        if lazy is not MISSING:
+            return lazy
     if isinstance(o, Sym):
         tag = E.tag_of(path, o)
         if tag.startswith("N_"):
@@ -118,6 +123,42 @@ def getattr_value(E, path, o, name, frame):
     if o is None or isinstance(o, (bool, int, float, SInt, SBool, SymTuple, BoundMethod, Builtin)):
         return MISSING
     raise Unsupported(f"getattr on {type(o).__name__}")
+
+
+def lazy_node_attr(E, path, o, name):
+    """node.<field> / node.__class__ on a node whose kind is not yet fixed on this path: an if-then-else term over
+    the kinds that have the field (one branch on 'has the field', none on the kind itself)."""
+    U, facts = E.U, E.facts
+    t = o.term
+    if not path.entails(U.is_node(t)):
+        return MISSING
+    if name == "__class__":
+        return MISSING      # dispatch by class name needs the concrete kind: fork (tag_of) as usual
+    kinds = [k for k in facts.kinds if name in facts.kind_fields[k]]
+    if not kinds:
+        return MISSING
+    # a class member of the same name on some kind (property / method) needs the kind: fall back to forking
+    if any(name in facts.ast_classes[k]["members"] for k in facts.kinds):
+        return MISSING
+    has = U.is_node(t, kinds)
+    if not E.branch(path, has):
+        E.throw(path, "AttributeError", name)
+    term = U.field(kinds[-1], name, t)
+    for k in reversed(kinds[:-1]):
+        term = z3.If(U.is_kind(k, t), U.field(k, name, t), term)
+    return E.from_pv(term, path)
+
+
+def class_of_term(E, t):
+    U = E.U
+    # external objects / classes: some class, an uninterpreted function of the value
+    term = E.PV.ClsV(E.uf("class_index_of", E.PV, z3.IntSort())(t))
+    for tag, nm in (("StrV", "str"), ("ListV", "list"), ("TupleV", "tuple"), ("NoneV", "NoneType"), ("IntV", "int"),
+                    ("BoolV", "bool")):
+        term = z3.If(U.is_tag(tag, t), U.clsv("builtins." + nm), term)
+    for k in reversed(E.facts.kinds):
+        term = z3.If(U.is_kind(k, t), U.clsv("odata_query.ast." + k), term)
+    return term
 
 
 def bind_member(E, path, o, m):
@@ -360,6 +401,11 @@ def _hasattr(E, path, fv, args, kwargs, frame):
     o, name = args
     if not isinstance(name, str):
         raise Unsupported("hasattr with symbolic name")
+    if isinstance(o, Sym) and E.U.ctor_name(z3.simplify(o.term)) is None and z3.simplify(o.term).get_id() not in path.tags \
+            and path.entails(E.U.is_node(o.term)):
+        kinds = [k for k in E.facts.kinds if name in E.facts.kind_fields[k] or name in E.facts.ast_classes[k]["members"]
+                 or name == "__class__"]
+        return _sb(E.U.is_node(o.term, kinds)) if kinds else False
     if isinstance(o, (ExtVal,)) or (isinstance(o, Sym) and E.tag_of(path, o) == "ExtV"):
         h = E.attr_models.get(("<hasattr>",))
         if h:
@@ -379,6 +425,8 @@ def _hasattr(E, path, fv, args, kwargs, frame):
 
 def _type(E, path, fv, args, kwargs, frame):
     (v,) = args
+    if isinstance(v, Sym) and E.U.ctor_name(z3.simplify(v.term)) is None and z3.simplify(v.term).get_id() not in path.tags:
+        return Sym(class_of_term(E, v.term))
     if isinstance(v, Sym):
         tag = E.tag_of(path, v)
         if tag.startswith("N_"):
@@ -743,6 +791,13 @@ def _dict_get(E, path, fv, args, kwargs, frame):
     d = fv.self_val
     k = args[0]
     default = args[1] if len(args) > 1 else None
+    if isinstance(k, Sym) and d.d and all(isinstance(kk, ClassRef) for kk in d.d) \
+            and all(isinstance(v, int) and not isinstance(v, bool) for v in d.d.values()) \
+            and isinstance(default, int) and path.entails(E.U.is_tag("ClsV", k.term)):
+        e = z3.IntVal(default)
+        for kk, v in reversed(list(d.d.items())):
+            e = z3.If(k.term == E.U.clsv(kk.qualname), z3.IntVal(v), e)
+        return _si(e)
     if isinstance(k, (SStr, Sym)):
         h = E.ext_models.get("<dict_get>")
         if h:
